@@ -1,5 +1,5 @@
 --------------------------------- MODULE ParFor ---------------------------------
-(* C13 - Thread::parallel_for(i0, i1, f, nth), ThreadGroup and parallel_invoke.
+(* C13 - Thread::parallel_for(i0, i1, f, nth), nested parallel_for, ThreadGroup and parallel_invoke.
 
    Property level: f is invoked exactly once for every index of [i0, i1) and for no other index; every member of
    a ThreadGroup / every function of parallel_invoke has run exactly once when the call returns.
@@ -9,7 +9,7 @@
    replayer (harness/c13_threads.cpp), which counts the real invocations per index.                              *)
 EXTENDS Integers, Sequences, FiniteSets, TLC, Json
 
-CONSTANTS LoNeg, Hi, MaxN, MaxGroup
+CONSTANTS LoNeg, Hi, MaxN, MaxGroup, MaxNest
 Lo == 0 - LoNeg     \* (TLC configuration files cannot hold negative numbers)
 
 Min2(a, b) == IF a < b THEN a ELSE b
@@ -44,18 +44,36 @@ NextGroup == /\ phase = "group"
                 ELSE phase' = "invoke" /\ i0' = 2 /\ i1' = 0 /\ n' = 0
 NextInvoke == /\ phase = "invoke"
               /\ IF i0 < 4 THEN i0' = i0 + 1 /\ UNCHANGED <<i1, n, phase>>
-                 ELSE phase' = "done" /\ UNCHANGED <<i0, i1, n>>
-Next == NextPfor \/ NextGroup \/ NextInvoke
+                 ELSE phase' = "nest" /\ i0' = 0 /\ i1' = 0 /\ n' = 0
+\* nest: parallel_for(0, i0, [..](int i) { parallel_for(0, i1, g(i, .), n2) }, n1) with n = 3 * (n1 - 1) + (n2 - 1);
+\* the outer range may be shorter than its thread count and either range may be empty
+NextNest == /\ phase = "nest"
+            /\ IF n < 8 THEN n' = n + 1 /\ UNCHANGED <<i0, i1, phase>>
+               ELSE IF i1 < MaxNest THEN n' = 0 /\ i1' = i1 + 1 /\ UNCHANGED <<i0, phase>>
+               ELSE IF i0 < MaxNest THEN n' = 0 /\ i1' = 0 /\ i0' = i0 + 1 /\ UNCHANGED phase
+               ELSE phase' = "done" /\ UNCHANGED <<i0, i1, n>>
+Next == NextPfor \/ NextGroup \/ NextInvoke \/ NextNest
 Spec == Init /\ [][Next]_vars
 
+\* pairs (i, j) coded 8 * i + j: the nested loops visit every pair of [0,a) x [0,b) exactly once
+NestExpected(a, b) == [j \in 1..(a * b) |-> 8 * ((j - 1) \div b) + ((j - 1) % b)]
 Work(l) == IF l = 0 THEN 0 ELSE IF l = 1 THEN 2000 ELSE 200000
 CaseOf == IF phase = "pfor" THEN [k |-> "pfor", i0 |-> i0, i1 |-> i1, n |-> n, exp |-> Expected(i0, i1)]
           ELSE IF phase = "group" THEN [k |-> "group", m |-> i0, work |-> Work(i1), exp |-> [j \in 1..i0 |-> 1]]
-          ELSE [k |-> "invoke", m |-> i0, exp |-> [j \in 1..4 |-> IF j <= i0 THEN 1 ELSE 0]]
+          ELSE IF phase = "invoke" THEN [k |-> "invoke", m |-> i0, exp |-> [j \in 1..4 |-> IF j <= i0 THEN 1 ELSE 0]]
+          ELSE [k |-> "nest", a |-> i0, b |-> i1, n1 |-> (n \div 3) + 1, n2 |-> (n % 3) + 1, exp |-> NestExpected(i0, i1)]
 \* every emitted expectation is consistent with the implementation-shaped partition
-CaseOK == phase = "pfor" =>
-            LET m == NWorkers(i0, i1, n) IN
-            Len(Expected(i0, i1)) = (IF m <= 0 THEN 0 ELSE Cardinality(UNION {Share(i0, i1, n, k) : k \in 0..(m - 1)}))
+CaseOK == /\ phase = "pfor" =>
+               LET m == NWorkers(i0, i1, n) IN
+               Len(Expected(i0, i1)) = (IF m <= 0 THEN 0 ELSE Cardinality(UNION {Share(i0, i1, n, k) : k \in 0..(m - 1)}))
+          \* nested: the partition of the outer range composed with the partition of the inner range covers the product once
+          /\ phase = "nest" =>
+               LET n1 == (n \div 3) + 1  n2 == (n % 3) + 1
+                   mo == NWorkers(0, i0, n1)  mi == NWorkers(0, i1, n2)
+                   pairs == IF mo <= 0 \/ mi <= 0 THEN {}
+                            ELSE UNION {{8 * i + j : i \in Share(0, i0, n1, ko), j \in Share(0, i1, n2, ki)} : ko \in 0..(mo - 1), ki \in 0..(mi - 1)}
+               IN /\ pairs = {NestExpected(i0, i1)[x] : x \in 1..(i0 * i1)}
+                  /\ Cardinality(pairs) = i0 * i1
 Emit == IF phase # "done" THEN PrintT(ToJson(CaseOf)) ELSE TRUE
 EmitInv == Emit
 ===============================================================================
